@@ -119,3 +119,46 @@ Lemma shapes_for_extracted t id fn args :
   t = documented -> keys (build_request t id fn args) = ["call"; "function"; "args"] /\
                     (args = [] -> dlookup "args" (build_request t id fn args) = Some (JArr [])).
 Proof. intros ->. split; [reflexivity|]. intros ->. reflexivity. Qed.
+
+(* ================================================================= serializer independence (C08 b) *)
+(* Two serializers (possibly with different wire payload types) that agree on their own round trips
+   give every handler the same arguments, closure identities included: nothing in the plumbing
+   looks at a payload except through marshal / unmarshal. *)
+Section TwoSerializers.
+Variables value ty payload1 payload2 : Type.
+Variable marshal1 : value -> payload1.
+Variable unmarshal1 : payload1 -> ty -> value.
+Variable dflt1 : payload1.
+Variable marshal2 : value -> payload2.
+Variable unmarshal2 : payload2 -> ty -> value.
+Variable dflt2 : payload2.
+Variable idty : ty.                                   (* the type closure ids are decoded into *)
+
+Hypothesis agree : forall v t, unmarshal1 (marshal1 v) t = unmarshal2 (marshal2 v) t.
+Hypothesis agree_dflt : forall t, unmarshal1 dflt1 t = unmarshal2 dflt2 t.
+
+(* what a handler can observe of its arguments: values, and the decoded id behind a callable *)
+Inductive oarg := OCtx | OVal (v : value) | OClosure (id : value).
+Definition obs1 (d : darg value payload1) : oarg :=
+  match d with DCtx _ _ => OCtx | DVal _ _ v => OVal v | DProxy _ _ p => OClosure (unmarshal1 p idty) end.
+Definition obs2 (d : darg value payload2) : oarg :=
+  match d with DCtx _ _ => OCtx | DVal _ _ v => OVal v | DProxy _ _ p => OClosure (unmarshal2 p idty) end.
+
+Lemma spec_args_agree args ptys :
+  map obs1 (spec_args value payload1 ty marshal1 unmarshal1 dflt1 args ptys) =
+  map obs2 (spec_args value payload2 ty marshal2 unmarshal2 dflt2 args ptys).
+Proof.
+  revert ptys. induction args as [|a r IH]; intros [|t rt]; simpl; auto.
+  rewrite IH. f_equal. destruct a, t; simpl; rewrite ?agree, ?agree_dflt; reflexivity.
+Qed.
+
+Lemma serializer_independence_lemma ctx args ptys :
+  length ptys = length args ->
+  map obs1 (handler_args value payload1 ty unmarshal1 dflt1 (PCtx ty :: ptys)
+                         (request_args value payload1 marshal1 dflt1 (ctx :: args))) =
+  map obs2 (handler_args value payload2 ty unmarshal2 dflt2 (PCtx ty :: ptys)
+                         (request_args value payload2 marshal2 dflt2 (ctx :: args))).
+Proof.
+  intros Hl. rewrite !args_roundtrip_lemma by exact Hl. simpl. f_equal. apply spec_args_agree.
+Qed.
+End TwoSerializers.
